@@ -21,6 +21,18 @@ func collect(r *run.Runner) *RunResult {
 	for _, s := range r.StateAt {
 		res.StateHash = append(res.StateHash, s.Hash())
 	}
+	// reach probe: segments filled to their last byte
+	w.Disk.Walk("/", func(p string, n *core.Node) {
+		if len(p) > 4 && p[len(p)-4:] == ".dat" && len(n.Ino.Data) > 0 && int64(len(n.Ino.Data)) == r.P.Cfg.SegSize {
+			d := n.Ino.Data
+			// the last record ends exactly at the segment end iff the final bytes are used;
+			// a zero tail is also possible for an exactly filling record ending in zero bytes,
+			// so this undercounts
+			if d[len(d)-1] != 0 {
+				res.Probes["segment-filled-to-its-last-byte"]++
+			}
+		}
+	})
 	return res
 }
 
